@@ -248,6 +248,31 @@ func s1Pair(c *mon.Case) {
 		inU: func(p float64) bool { return s1In(U, p) }, inI: func(p float64) bool { return s1In(I, p) },
 		haveContains: true, haveIntersects: true, containsAB: A.ContainsInterval(B), intersectsAB: A.Intersects(B), twoSidedOK: two,
 		show: hx, desc: desc})
+	// interior forms: the interior of a non-full interval is the interval without its two endpoints (-pi == pi)
+	sameAngle := func(p, q float64) bool { return p == q || (math.Abs(p) == math.Pi && math.Abs(q) == math.Pi) }
+	openA := func(p float64) bool {
+		return A.IsFull() || (s1In(A, p) && !sameAngle(p, A.Lo) && !sameAngle(p, A.Hi))
+	}
+	ici, ii := A.InteriorContainsInterval(B), A.InteriorIntersects(B)
+	if ici && !A.ContainsInterval(B) {
+		c.Violation("s1/InteriorContainsInterval/true-but-not-contained/wrong-answer", "InteriorContainsInterval is true but ContainsInterval is false", desc())
+	}
+	if ii && !A.Intersects(B) {
+		c.Violation("s1/InteriorIntersects/true-but-not-Intersects/wrong-answer", "InteriorIntersects is true but Intersects is false", desc())
+	}
+	for _, p := range probes {
+		if got, want := A.InteriorContains(p), openA(p); got != want {
+			c.Violation("s1/InteriorContains-point/wrong-answer", fmt.Sprintf("InteriorContains(%s)=%v, the interval without its endpoints says %v", hx(p), got, want), desc())
+		}
+		if s1In(B, p) {
+			if ici && !openA(p) {
+				c.Violation("s1/InteriorContainsInterval/true-but-point-not-inside/wrong-answer", "InteriorContainsInterval is true but this point of B is not in the interior of A: "+hx(p), desc())
+			}
+			if !ii && openA(p) {
+				c.Violation("s1/InteriorIntersects/false-but-common-point/wrong-answer", "InteriorIntersects is false but this point of B is in the interior of A: "+hx(p), desc())
+			}
+		}
+	}
 	for _, p := range probes {
 		a := s1In(A, p)
 		if got := A.Contains(p); got != a {
